@@ -57,7 +57,7 @@ func C15(r *core.Report) {
 	c15HeaderKeptAsParsed(r, "C15.R9")
 	r.Floor("C15.R8", 1)
 	r.Floor("C15.R7", 1)
-	r.Floor("C15.R1", 5)
+	r.Floor("C15.R1", 3)
 	r.Floor("C15.R2", 2)
 	r.Floor("C15.R3", 2)
 	r.Floor("C15.R4", 3)
